@@ -77,6 +77,8 @@ impl OperationControl for UnambiguousRepeat {
         let mut p = position;
         let mut matches = 0;
         while matches < self.max && p <= guard {
+            #[cfg(regexml_verif)]
+            crate::verif::tick(16);
             let mut iter = self.operation.matches_iter(matcher, p);
             if let Some(n) = iter.next() {
                 p = n;
